@@ -37,7 +37,7 @@ def floors(tier):
     for m in RMODES:
         f["classes"]["C09:leaves-span:%s" % m] = 100
         f["classes"]["C09:stays-in-span:%s" % m] = 100
-    for c in ("names-equal", "names-overlap", "names-disjoint", "only-matching", "all-names", "empty-tier-in-B", "type-mismatch"):
+    for c in ("names-equal", "names-overlap", "names-disjoint", "only-matching", "all-names", "empty-tier-in-B", "type-mismatch", "A-has-narrower-tier"):
         f["classes"]["C09:append:%s" % c] = 20
     return f
 
@@ -140,6 +140,12 @@ def _post(ctx):
 
 def _tg_valid(s):
     return s["tiers"] and all(snap.wellformed_tier_snap(t) and t["min"] == s["min"] and t["max"] == s["max"] for t in s["tiers"]) and s["min"] is not None and s["min"] >= 0
+
+
+def _tg_wellformed(s):
+    """tiers well-formed and inside the textgrid's span (not necessarily equal to it)"""
+    return bool(s["tiers"]) and s["min"] is not None and s["min"] >= 0 and all(
+        snap.wellformed_tier_snap(t) and t["min"] >= s["min"] and t["max"] <= s["max"] for t in s["tiers"])
 
 
 def _tg_pre(ctx):
@@ -259,8 +265,8 @@ def _apptg_pre(ctx):
     if not (snap.is_tg(a) and snap.is_tg(b)) or not isinstance(flag, bool):
         return SKIP
     sa, sb = snap.tg_snap(a), snap.tg_snap(b)
-    if not (_tg_valid(sa) and _tg_valid(sb)):
-        REC.skip("append.textgrid", "operand-not-validate-clean")
+    if not (_tg_wellformed(sa) and _tg_wellformed(sb)):
+        REC.skip("append.textgrid", "operand-not-well-formed")
         return SKIP
     ta = {t["name"]: t["t"] for t in sa["tiers"]}
     if any(t["name"] in ta and ta[t["name"]] != t["t"] for t in sb["tiers"]):
@@ -283,6 +289,8 @@ def _apptg_post(ctx):
         classes.append("C09:append:names-disjoint")
     if any(not t["entries"] for t in sb["tiers"]):
         classes.append("C09:append:empty-tier-in-B")
+    if any(t["max"] < sa["max"] for t in sa["tiers"]):
+        classes.append("C09:append:A-has-narrower-tier")
     sig = ("apptg", flag, tuple(classes), len(na), len(nb))
     mech = {"kind": "TG", "exc": type(ctx.exc).__name__ if ctx.exc else None, "b_has_empty_tier": any(not t["entries"] for t in sb["tiers"])}
     REC.outcome(mon, ctx.exc)
@@ -449,7 +457,12 @@ def _workload(tier, rng, shard, nshards):
             nb = [u for u in universe if u not in na][: rng.randrange(1, 3)] or list(na)
         A = rand_tg(rng, na, rng.choice([2.0, 3.5, 5.0]), src)
         B = rand_tg(rng, nb, rng.choice([1.0, 2.5, 5.0]), src)
-        call(A.appendTextgrid, B, rng.random() < 0.5)
+        C = call(A.appendTextgrid, B, rng.random() < 0.5)
+        if C is not None and len(C.tierNames) and rng.random() < 0.7:
+            # chaining: tiers that were only in A end before the combined textgrid does
+            nd = rng.sample(universe, rng.randrange(1, 4))
+            D = rand_tg(rng, nd, rng.choice([1.0, 2.5]), src)
+            call(C.appendTextgrid, D, rng.random() < 0.4)
         r = rng.random()
         off = rng.choice(OFFSETS) if r < 0.5 else rng.uniform(-5, 5)
         call(A.editTimestamps, off, rng.choice(RMODES))
